@@ -14,7 +14,9 @@ META = dict(
     text=("CBMC function + loop contracts on SimbodyMatterSubsystemRep::prescribeQ/prescribeU cut mechanically from the real source: returns false and "
           "invalidates nothing iff there are no prescribed/known-zero coordinates; otherwise every prescribed q/u equals its pool value bit-exactly, "
           "every known-zero one is +0.0, and every other coordinate keeps its bit pattern (frame); any vector length and list lengths (loop "
-          "contracts, ghost coordinate). Everything else in C10 (partitioned dynamics, multipliers, lock/unlock) is not decided."),
+          "contracts, ghost coordinate). Everything else in C10 (partitioned dynamics, multipliers) is not decided. "
+          "Lock protocol (checks/part_c10_lock.py): MobilizedBodyImpl::lock/lockAt/unlock/getLockLevel/getLockValueAsVector and the prescribed-udot part of "
+          "realizeDynamics cut from MobilizedBody.cpp and proved against their documented contracts (ghost slot indices, frame for other mobilizers, lock(Acceleration) stores +0 from any history)."),
     note=("Assumed: Vector/Array_ element access is bounds-checked raw storage; the presQ/zeroQ (presU/zeroU) index lists are in range, duplicate-free and "
           "mutually disjoint, and the pools have one slot per prescribed coordinate (established where SBInstanceCache/SBTimeCache are built)."),
     technique="CBMC function contracts (dfcc) + loop contracts with a ghost coordinate on mechanically extracted real code",
@@ -86,6 +88,12 @@ def main(ctx):
                                   min_obligations=2, function="SBInstanceCache::getTotalNumPresQ/ZeroQ/PresU/ZeroU", timeout=120))
     jobs.append(lambda: cover_unit(ctx, "matter.prescribe.cover", [unit_c], "h_cover", expect_min=4, function="prescribeQ/U contract precondition"))
     parallel(jobs)
+    lock_replayer = None
+    try:
+        import part_c10_lock
+        lock_replayer = part_c10_lock.run(ctx)
+    except ExtractionError as e:
+        ctx.undecide("extraction (lock protocol): %s" % e)
     ctx.trust("cbmc/goto-cc/goto-instrument 6.11.0 (C front end), MiniSat")
     ctx.trust("tools/extract.py + the rewrite table in checks/c10.py (extraction_report.json lists every rewrite)")
     ctx.assume("Vector::operator[] / Array_<Real>::operator[] are bounds-checked raw storage (index in range is an obligation of the caller, checked here)")
@@ -96,11 +104,15 @@ def main(ctx):
                "q/u and invalidate the stage (ghost flag)")
     ctx.not_decided += ["that the pool values are the values the Motion objects / locks prescribe (Motion::calcPrescribed*, realizeTime/Position)",
                         "partitioned forward dynamics: other mobilities solved as if the prescribed ones were inputs; motion multipliers reproduce the accelerations",
-                        "lock/unlock/disable semantics (MobilizedBody::lock, lockAt, unlock)",
+                        "disabling a Motion (Motion::disable) and lockByDefault; realizeTime/realizePosition pool filling",
                         "known-zero q of quaternion mobilizers should be the reference configuration, not 0 (TODO in the source)"]
     ctx.explanation = ("prescribeQ/prescribeU: exact (bit-pattern) copy of prescribed values, +0.0 for known-zero entries, frame for all other coordinates, "
                        "false/no invalidation iff nothing to do - proved for any sizes via loop contracts and a ghost coordinate. Index-list well-formedness assumed.")
-    return ctx.finish(replayer=lambda ob: replay(ctx, ob))
+    def replayer(ob):
+        if ob.unit.startswith("lock.") and lock_replayer:
+            return lock_replayer(ob)
+        return replay(ctx, ob)
+    return ctx.finish(replayer=replayer)
 
 
 _exe = {}
